@@ -549,3 +549,34 @@ def fn_param_name(f, v):
     if v is not None and v.k == "DeclRefExpr" and v.dk == "param":
         return v.name
     return None
+
+
+def possible_values(fn, expr, depth=4):
+    """All expressions a value may stem from: a multiply-assigned local yields every definition's value, a conditional
+    operator both arms.  Returns a list of (stripped) expression nodes."""
+    e = strip(expr)
+    if e is None or depth <= 0:
+        return [e]
+    if e.k == "ConditionalOperator":
+        return possible_values(fn, e.kids[1], depth - 1) + possible_values(fn, e.kids[2], depth - 1)
+    if e.k == "DeclRefExpr" and e.dk == "local" and e.did:
+        ds = [d for d in fn.defs().get(e.did, []) if d[0] in ("init", "assign") and d[2] is not None]
+        if ds and not any(d[0] in ("addr", "mod") for d in fn.defs().get(e.did, [])):
+            out = []
+            for d in ds:
+                out += possible_values(fn, d[2], depth - 1)
+            return out
+    return [e]
+
+
+def possible_fields(fn, expr):
+    """Set of (record, field) the expression may denote; None if some possibility is not a field."""
+    out = set()
+    for v in possible_values(fn, expr):
+        k = fn.key(v, resolve=False) if v is not None else ("?",)
+        if k[0] == "&":
+            k = k[1]
+        if k[0] != "f":
+            return None
+        out.add((k[1], k[2]))
+    return out
